@@ -24,6 +24,9 @@ pub open spec fn is_stmt(ss: Seq<LuaScope>, i: int) -> bool { stmt_kind(kd(ss, i
 pub open spec fn is_func(ss: Seq<LuaScope>, i: int) -> bool { func_kind(kd(ss, i)) }
 pub open spec fn is_repeat(ss: Seq<LuaScope>, i: int) -> bool { kd(ss, i) == LuaScopeKind::Repeat }
 
+/// create_scope: a scope's id is its index in the vector
+pub open spec fn ids_are_indices(ss: Seq<LuaScope>) -> bool { forall|i: int| 0 <= i < ss.len() ==> (#[trigger] ss[i]).id.id as int == i }
+
 // ---- links_wf: what the API of the tree itself guarantees (create_scope: id = index; add_child_scope: parent <-> child) --------------
 // and what the termination / no-panic argument needs. A parent is created before its children (it is on the builder's stack).
 pub open spec fn links_wf(ss: Seq<LuaScope>) -> bool {
